@@ -322,6 +322,8 @@ def const_table(ctx, k, depth=4):
                     return [cell(o) for o in r2["ops"]]
                 if r2["k"] == "use":
                     return cell(r2["op"])
+                if r2["k"] == "ref" and all(e == "deref" for e in r2["place"]["p"]):
+                    return cell({"c": {"l": r2["place"]["l"], "p": []}})
                 return None
             rows = [cell(o) for o in rv["ops"]]
             return rows
